@@ -23,6 +23,8 @@ var _ = shared.NewCounter
 // Well-formedness of standard-library HTTP messages handed to the interpreter: every request and
 // response it works on was built by net/http or by falco with a non-nil header map.
 //@ typeinv net/http.Request self.Header != nil
+// an interpreter handed to any function is between include resolutions or inside at most 100 of them
+//@ typeinv interpreter.Interpreter self.includeDepth >= 0 && self.includeDepth <= limitations.MaxIncludeDepth
 //@ typeinv net/http.Response self.Header != nil
 
 //@ pred okI(i *Interpreter) = i != nil && i.ctx != nil && i.ctx.Restarts >= 0 && i.ctx.Restarts <= limitations.MaxVarnishRestarts
